@@ -718,6 +718,21 @@ func (c *Ctx) memberAtom(a an.PathAtom) (x *an.Expr, set []int64, member bool, o
 			if tbl, okT := c.globalIntTable(e.Args[0]); okT {
 				return e.Args[1], tbl, a.Pos, true
 			}
+			// a literal table written at the call: slices.Contains([]int{32, 40, …}, x)
+			if lit := e.Args[0]; lit.Op == an.OpStruct && lit.Name == "list" && len(lit.Args) > 0 {
+				var tbl []int64
+				for _, el := range lit.Args {
+					k, isC := el.ConstInt()
+					if !isC {
+						tbl = nil
+						break
+					}
+					tbl = append(tbl, k)
+				}
+				if tbl != nil {
+					return e.Args[1], tbl, a.Pos, true
+				}
+			}
 		}
 	}
 	return nil, nil, false, false
